@@ -468,6 +468,13 @@ def D6_bond_order_precedence(repo, clause):
         eq = [(t, pol) for t, pol in gs if isinstance(t, ast.Compare) and len(t.ops) == 1 and isinstance(t.ops[0], (ast.Eq, ast.NotEq))]
         ok = len(eq) == 1 and ((isinstance(eq[0][0].ops[0], ast.Eq)) == bool(eq[0][1]))
         inverted = len(eq) == 1 and not ok
+        subset = [(t, pol) for t, pol in gs if isinstance(t, ast.Compare) and len(t.ops) == 1 and isinstance(t.ops[0], (ast.LtE, ast.Lt, ast.GtE, ast.Gt, ast.In))] + \
+            [(t, pol) for t, pol in gs if isinstance(t, ast.Call) and call_name(t) in ("issubset", "issuperset")]
+        if not eq and subset:
+            obs.append(Ob("D6", clause, fn, r, False,
+                          "a user rule's bond order is returned under the SUBSET test `%s`: a two-type rule such as ({'C_R','N_R'}, 1.41) then also captures C_R-C_R and N_R-N_R bonds" % ast.unparse(subset[0][0]),
+                          slot="rule-match", positive=True))
+            continue
         obs.append(Ob("D6", clause, fn, r, ok,
                       "a user rule's bond order is returned %s" % ("when the rule's atom-type set equals the pair's" if ok else (
                           "when the sets are DIFFERENT (`%s` taken as %s): every rule fires for the wrong pairs and never for its own" % (ast.unparse(eq[0][0]), eq[0][1]) if inverted
